@@ -325,7 +325,7 @@ def c11_jobs(Job, tier):            # noqa: F811  (replaces the placeholder abov
 
 
 def c14_extra(Job, tier):
-    return write_span_jobs(Job) + space_jobs(Job) + spans_jobs(Job)
+    return write_span_jobs(Job) + space_jobs(Job) + spans_jobs(Job) + [j for j in fragment_jobs(Job) if "ctor" in j.name]
 
 
 # ---- check_track_is_supported (C06 iii, C07) -------------------------------------------------------------------------
